@@ -735,12 +735,12 @@ impl CompactionWorker {
                         total_memtable_compaction_time += memtable_compaction_start.elapsed();
                     }
 
+                    #[cfg(feature = "verif")]
+                    let verif_had_builder = compaction_state.has_table_builder();
                     /*
                     If the table file that is currently being built overlaps too much of the
                     grandparent files, start a new file.
                     */
-                    #[cfg(feature = "verif")]
-                    let verif_had_builder = compaction_state.has_table_builder();
                     if compaction_state.has_table_builder()
                         && compaction_state
                             .compaction_manifest_mut()
